@@ -8,22 +8,19 @@ Anchors: `dashlive/server/requesthandler/decorators.py:43-112` (`login_required`
 `flask.views.View.as_view` (class `decorators` are applied in list order, so the
 last one is outermost) and Python's decorator syntax (top one is outermost).
 
-A *role* is what the caller has logged in as; the three named roles are the group
-memberships docs/users.md describes and the harness users carry:
-`user` = {USER}, `media` = {USER, MEDIA}, `admin` = {ADMIN}.
+A request carries **two independent identities**: the flask_login session identity
+(`current_user`) and the owner of the presented bearer token (`jwt_current_user`).  They are
+separate inputs of every guard; a caller may combine any session it holds with any token it
+holds (its own, or the guest token `GET /api/refresh/access` issues to everybody).  The three
+named identities are the group memberships docs/users.md describes and the harness users carry:
+`user` = {USER}, `media` = {USER, MEDIA}, `admin` = {ADMIN}.  What a caller may do is the
+union of what the identities it holds may do (`mayChange`).
 
 What is **not** modelled (trusted): how flask_login / Flask-JWT-Extended turn a
 session cookie / bearer token into `current_user` / `jwt_current_user`.  The model
 starts from "the server has identified the caller as …".
 -/
 namespace DashLive.Auth
-
-/-- what the caller is logged in as -/
-inductive Role | anonymous | user | media | admin
-  deriving DecidableEq, Repr, Inhabited
-
-def Role.rank : Role → Nat
-  | .anonymous => 0 | .user => 1 | .media => 2 | .admin => 3
 
 /-- `dashlive.server.models.group.Group` -/
 inductive Perm | user | media | admin
@@ -37,12 +34,12 @@ inductive Method | GET | HEAD | POST | PUT | DELETE | PATCH
 inductive Kind | none | media | admin | self
   deriving DecidableEq, Repr
 
-/-- the identity the server computes for a request: flask_login's `current_user`
-(`nobody` = `AnonymousUser`) or Flask-JWT-Extended's `current_user`; `guest` is the
-`_AnonymousUser_` row for which `GET /api/refresh/access` issues access tokens to
-visitors that have not logged in (`user_management.py:270-283`) -/
+/-- an identity the server can compute for a request: `nobody` = flask_login's `AnonymousUser`
+(or, as a target, an account the caller holds no credential for); `guest` = the
+`_AnonymousUser_` row for which `GET /api/refresh/access` issues access tokens to every
+visitor (`user_management.py:270-283`); `user`/`media`/`admin` = an account with that group set -/
 inductive Ident | nobody | guest | user | media | admin
-  deriving DecidableEq, Repr
+  deriving DecidableEq, Repr, Inhabited
 
 /-- `User.is_authenticated` (user.py:97-101: false for the guest account),
 `AnonymousUserMixin.is_authenticated` = False -/
@@ -62,39 +59,44 @@ def Ident.hasPermission : Ident → Perm → Bool
   | .user, .user => true
   | _, _ => false
 
-def Role.ident : Role → Ident
-  | .anonymous => .nobody | .user => .user | .media => .media | .admin => .admin
+/-- same account (pattern matching, cheap for the kernel); `nobody` is never "the same account" -/
+def Ident.same : Ident → Ident → Bool
+  | .guest, .guest | .user, .user | .media, .media | .admin, .admin => true
+  | _, _ => false
 
-/-- The parts of a request the guards look at.  All Booleans, so the space is finite. -/
+/-- documented rank of an identity: anonymous/guest 0 < user 1 < media 2 < admin 3 -/
+def Ident.rank : Ident → Nat
+  | .nobody => 0 | .guest => 0 | .user => 1 | .media => 2 | .admin => 3
+
+/-- The parts of a request the guards look at.  Finite, enumerated completely (`allRequests`). -/
 structure Request where
-  /-- the caller presents the session cookie of its login (anonymous has none) -/
-  sendsSession : Bool
-  /-- the caller presents a bearer token of the kind the guard asks for (access token;
-  refresh token where `refresh=True`).  Anonymous callers own one token: the guest
-  *access* token from `GET /api/refresh/access`. -/
-  sendsJwt : Bool
+  /-- flask_login's `current_user`: the account of the session cookie presented, `nobody` without one -/
+  session : Ident
+  /-- Flask-JWT-Extended's `current_user`: the owner of the bearer token presented, `none` without one.
+  Independent of `session`. -/
+  token : Option Ident
+  /-- the presented token is a refresh token (else an access token); the guest account only ever
+  gets access tokens -/
+  tokenIsRefresh : Bool
   /-- `utils.is_ajax()`: JSON body or `ajax=1` -/
   ajax : Bool
   /-- the object named in the URL exists (what the `uses_*` loaders test) -/
   targetExists : Bool
-  /-- the user row named in the URL is the caller's own (`EditUser.post`) -/
-  targetIsSelf : Bool
+  /-- the user row named in the URL (`EditUser`): one of the accounts above, `nobody` = some
+  other account -/
+  target : Ident
   /-- a `csrf_token` parameter is present -/
   csrfPresent : Bool
   /-- `CsrfProtection.check(service, token)` succeeds for the service the guard names
-  (the conservative reading for the role theorems: a lesser role may hold a valid token
+  (the conservative reading for the role theorems: a lesser caller may hold a valid token
   for every service) -/
   csrfOk : Bool
   deriving DecidableEq, Repr
 
-def sessionIdent (ρ : Role) (r : Request) : Ident :=
-  if r.sendsSession then ρ.ident else .nobody
+def Request.withSession (r : Request) (s : Ident) : Request := { r with session := s }
 
-/-- identity behind the bearer token, `none` when no token is sent -/
-def jwtIdent (ρ : Role) (r : Request) : Option Ident :=
-  if r.sendsJwt then
-    some (match ρ with | .anonymous => .guest | .user => .user | .media => .media | .admin => .admin)
-  else none
+def Request.withToken (r : Request) (t : Option Ident) (refresh : Bool) : Request :=
+  { r with token := t, tokenIsRefresh := refresh }
 
 /-- one entry of a handler's guard list -/
 inductive Guard
@@ -118,9 +120,22 @@ inductive Guard
   /-- `decorators.spa_handler`: non-ajax requests get the static single-page app -/
   | spa
   /-- a decorator the translator does not know: transparent (the conservative choice
-  for "every lesser role is stopped") -/
+  for "every lesser caller is stopped") -/
   | other (name : String)
   deriving DecidableEq, Repr
+
+/-- the guard consults the session identity -/
+def Guard.usesSession : Guard → Bool
+  | .loginRequired .. => true
+  | .selfOrAdmin jwt => !jwt
+  | _ => false
+
+/-- the guard consults the bearer token -/
+def Guard.usesToken : Guard → Bool
+  | .jwtRequired .. => true
+  | .jwtLoginRequired .. => true
+  | .selfOrAdmin jwt => jwt
+  | _ => false
 
 /-- what a guard does with a request -/
 inductive Verdict
@@ -146,48 +161,48 @@ def permOk (u : Ident) : Option Perm → Bool
 def csrfDecoratorFails (ajax hasNext : Bool) : Verdict :=
   if ajax then .stop 401 else if hasNext then .stop 0 else .stop 401
 
-def guardVerdict : Guard → Role → Request → Verdict
-  | .loginRequired html admin perm, ρ, r =>
-    -- decorators.py:50-55
-    let u := sessionIdent ρ r
+def guardVerdict : Guard → Request → Verdict
+  | .loginRequired html admin perm, r =>
+    -- decorators.py:50-55: every test reads flask_login's current_user
+    let u := r.session
     if !u.isAuthenticated then needsLogin r.ajax html
     else if admin && !u.isAdmin then needsLogin r.ajax html
     else if !permOk u perm then needsLogin r.ajax html
     else .pass
-  | .jwtRequired refresh optional, ρ, r =>
+  | .jwtRequired refresh optional, r =>
     -- flask_jwt_extended.verify_jwt_in_request: a missing token is 401 unless optional;
-    -- the guest access token is the wrong type where a refresh token is asked for (422)
-    if !r.sendsJwt then (if optional then .pass else .stop 401)
-    else if refresh && ρ == .anonymous then .stop 422
-    else .pass
-  | .jwtLoginRequired admin perm, ρ, r =>
-    -- decorators.py:67-72; without a verified token `jwt_current_user` cannot be
-    -- evaluated and the request dies with a 500
-    match jwtIdent ρ r with
+    -- a token of the wrong type (refresh where access is asked for, or the reverse) is 422
+    match r.token with
+    | none => if optional then .pass else .stop 401
+    | some _ => if r.tokenIsRefresh != refresh then .stop 422 else .pass
+  | .jwtLoginRequired admin perm, r =>
+    -- decorators.py:67-72: every test reads the owner of the bearer token; without a
+    -- verified token `jwt_current_user` cannot be evaluated and the request dies with a 500
+    match r.token with
     | none => .stop 500
     | some u =>
       if !u.isAuthenticated then .stop 401
       else if admin && !u.isAdmin then .stop 401
       else if !permOk u perm then .stop 401
       else .pass
-  | .csrfDecorator _ hasNext optional, _, r =>
+  | .csrfDecorator _ hasNext optional, r =>
     -- decorators.py:86-99
     if !r.csrfPresent then (if optional then .pass else csrfDecoratorFails r.ajax hasNext)
     else if r.csrfOk then .pass else csrfDecoratorFails r.ajax hasNext
-  | .csrfBody _, _, r => if r.csrfPresent && r.csrfOk then .pass else .block
-  | .loader _, _, r => if r.targetExists then .pass else .stop 404
-  | .selfOrAdmin jwt, ρ, r =>
-    let u := if jwt then (jwtIdent ρ r).getD .nobody else sessionIdent ρ r
-    if u.isAdmin || r.targetIsSelf then .pass else .block
-  | .spa, _, r => if r.ajax then .pass else .stop 0
-  | .other _, _, _ => .pass
+  | .csrfBody _, r => if r.csrfPresent && r.csrfOk then .pass else .block
+  | .loader _, r => if r.targetExists then .pass else .stop 404
+  | .selfOrAdmin jwt, r =>
+    let u := if jwt then r.token.getD .nobody else r.session
+    if u.isAdmin || r.target.same u then .pass else .block
+  | .spa, r => if r.ajax then .pass else .stop 0
+  | .other _, _ => .pass
 
 /-- guards in the order they run: the first one that does not pass decides -/
-def evalChain : List Guard → Role → Request → Verdict
-  | [], _, _ => .pass
-  | g :: gs, ρ, r =>
-    match guardVerdict g ρ r with
-    | .pass => evalChain gs ρ r
+def evalChain : List Guard → Request → Verdict
+  | [], _ => .pass
+  | g :: gs, r =>
+    match guardVerdict g r with
+    | .pass => evalChain gs r
     | v => v
 
 /-- one row of the generated route table (`Gen/Routes.lean`) -/
@@ -226,12 +241,12 @@ inductive Outcome (α : Type)
   | ran (a : α)
   deriving DecidableEq, Repr
 
-abbrev View (α : Type) := Role → Request → Outcome α
+abbrev View (α : Type) := Request → Outcome α
 
 /-- what every guard in this code base does: either answer itself or call the wrapped function -/
-def wrap {α : Type} (g : Guard) (v : View α) : View α := fun ρ r =>
-  match guardVerdict g ρ r with
-  | .pass => v ρ r
+def wrap {α : Type} (g : Guard) (v : View α) : View α := fun r =>
+  match guardVerdict g r with
+  | .pass => v r
   | .stop s => .stopped s
   | .block => .blocked
 
@@ -247,40 +262,78 @@ def decorate {α : Type} (methodDecorators : List Guard) (body : View α) : View
 def Row.view {α : Type} (row : Row) (body : View α) : View α :=
   asView row.classDecorators (decorate row.methodDecorators (decorate row.bodyGuards body))
 
-/-! ## Documented role -/
+/-! ## Who may change what (docs/users.md) -/
 
-/-- least role allowed to change state of this kind (`none`: nobody) -/
-def required : Kind → Request → Option Role
-  | .none, _ => none
-  | .media, _ => some .media
-  | .admin, _ => some .admin
-  | .self, r => some (if r.targetIsSelf then .user else .admin)
+/-- identities the caller has proved to hold: the session's and the token owner's -/
+def Request.holds (r : Request) (u : Ident) : Bool :=
+  r.session.same u || (match r.token with | some t => t.same u | none => false)
 
-/-- `ρ` is below the documented role -/
-def lesser (ρ : Role) : Option Role → Bool
-  | none => true
-  | some need => ρ.rank < need.rank
+def Ident.atLeastMedia : Ident → Bool
+  | .media | .admin => true
+  | _ => false
 
-def allRoles : List Role := [.anonymous, .user, .media, .admin]
+/-- some identity the caller holds is in the media group (or admin) -/
+def Request.holdsMedia (r : Request) : Bool :=
+  r.session.atLeastMedia || (match r.token with | some t => t.atLeastMedia | none => false)
+
+/-- some identity the caller holds is an admin -/
+def Request.holdsAdmin (r : Request) : Bool :=
+  r.session.isAdmin || (match r.token with | some t => t.isAdmin | none => false)
+
+/-- an account that can be somebody's *own* account (the guest row is nobody's) -/
+def Ident.isAccount : Ident → Bool
+  | .user | .media | .admin => true
+  | _ => false
+
+/-- the documentation lets the caller of `r` change state of this kind – judged by the union
+of the identities it holds: media group for streams/media/keys/multi-period streams, admin
+for other users, the user themself for their own account; nobody where no role is documented -/
+def mayChange : Kind → Request → Bool
+  | .none, _ => false
+  | .media, r => r.holdsMedia
+  | .admin, r => r.holdsAdmin
+  | .self, r => r.holdsAdmin || (r.target.isAccount && r.holds r.target)
+
+def Verdict.isPass : Verdict → Bool
+  | .pass => true
+  | _ => false
 
 def bools : List Bool := [false, true]
+def idents : List Ident := [.nobody, .guest, .user, .media, .admin]
+def tokens : List (Option Ident) := none :: idents.map some
 
-def allRequests : List Request :=
-  bools.flatMap fun a => bools.flatMap fun b => bools.flatMap fun c => bools.flatMap fun d =>
-  bools.flatMap fun e => bools.flatMap fun f => bools.map fun g =>
-    { sendsSession := a, sendsJwt := b, ajax := c, targetExists := d, targetIsSelf := e,
-      csrfPresent := f, csrfOk := g }
+/-- the request with the credentials and target of `r` and the most permissive value of every
+other component: ajax, the target exists, a valid CSRF token is present.  Every guard that
+passes on `r` passes on `r.permissive` (`guard_pass_mono`), so "nobody unauthorised passes" need
+only be checked on permissive requests, i.e. over the credential vectors. -/
+def credRequest (s : Ident) (t : Option Ident) (rf : Bool) (e : Ident) : Request :=
+  { session := s, token := t, tokenIsRefresh := rf, ajax := true, targetExists := true, target := e,
+    csrfPresent := true, csrfOk := true }
 
-/-- the finite obligation checked per row: every lesser role is stopped or blocked on every request -/
+def Request.permissive (r : Request) : Request :=
+  credRequest r.session r.token r.tokenIsRefresh r.target
+
+/-- `p` holds for every credential vector: session identity × bearer token owner × token type ×
+target account (nested enumeration, no list is materialised) -/
+def forallCreds (p : Request → Bool) : Bool :=
+  idents.all fun s => tokens.all fun t => bools.all fun rf => idents.all fun e =>
+    p (credRequest s t rf e)
+
+def existsCred (p : Request → Bool) : Bool :=
+  idents.any fun s => tokens.any fun t => bools.any fun rf => idents.any fun e =>
+    p (credRequest s t rf e)
+
+/-- the finite obligation checked per row: every caller the documentation does not allow is
+stopped or blocked – whatever combination of session and token it presents -/
 def rowGuarded (row : Row) : Bool :=
-  !row.mutates || allRoles.all fun ρ => allRequests.all fun r =>
-    !lesser ρ (required row.kind r) || evalChain row.chain ρ r != .pass
+  !row.mutates || forallCreds fun r => mayChange row.kind r || !(evalChain row.chain r).isPass
 
-/-- non-vacuity per row: the documented role itself gets through on some request -/
+/-- non-vacuity per row: some documented caller gets through -/
 def rowAdmits (row : Row) : Bool :=
-  !row.mutates || allRequests.any fun r =>
-    match required row.kind r with
-    | some need => evalChain row.chain need r == .pass
-    | none => false
+  !row.mutates || existsCred fun r => mayChange row.kind r && (evalChain row.chain r).isPass
+
+/-- a "JWT-protected" row: its chain asks `jwt_login_required` -/
+def Row.jwtProtected (row : Row) : Bool :=
+  row.chain.any fun g => match g with | .jwtLoginRequired .. => true | _ => false
 
 end DashLive.Auth
